@@ -2,8 +2,8 @@ package rules
 
 import (
 	"go/ast"
-	"go/token"
 	"go/constant"
+	"go/token"
 	"strings"
 
 	"verif/checker/eng"
